@@ -26,7 +26,8 @@ def code_args(cfg, variant=0):
             # flags are irrelevant outside TORUS mode: exercise that
             torus = tuple(bool((variant >> (1 + j)) & 1) for j in range(D))
     else:
-        pad = "VALID"
+        # the three spellings of "no padding": the string, the integer 0 (falsy!) and literal zero pairs
+        pad = ["VALID", 0, ((0, 0),) * D][(variant // 2) % 3]
         torus = tuple(bool((variant >> (1 + j)) & 1) for j in range(D))
     stride = tuple(int(s) for s in cfg["stride"])
     if variant % 4 >= 2 and len(set(stride)) == 1:
